@@ -418,6 +418,11 @@ fn main() {
     sections_from_to(&rep, th);
     sections_angle_axis(&rep, th);
     sections_norm(&rep, th);
+    sections_signed(&rep, th);
+    sections_from_to_more(&rep, th);
+    sections_float_algebra(&rep);
+    sections_from_to_float_scaled(&rep, th);
+    sections_angle_axis_more(&rep, th);
     { let m = VSEEN.lock().unwrap(); let over: BTreeMap<String, u64> = m.iter().filter(|(_, v)| v.0 > 200).map(|(k, v)| (k.clone(), v.0)).collect(); if !over.is_empty() { rep.extra("violations_counted_beyond_the_200_itemised_per_kind", json!(over)); } }
     std::process::exit(rep.finish());
 }
@@ -877,4 +882,604 @@ fn sections_norm(rep: &Report, th: bool) {
         } });
         s.meta("perfect_square_norm_points_for_pairs", json!(sq.len())); s.meta("box_range", json!(r));
     });
+}
+
+// ====================================================================================================
+// Strengthening round (out/AUDIT.md): all sign patterns, extreme magnitudes, float tiers of the algebra and of
+// the application, operand forms, small rotation angles.  Nothing above this line was changed.
+// ====================================================================================================
+fn cadd(c: &Cnt, n: u64) { c.0.fetch_add(n, Relaxed); }
+fn p2x(k: i32) -> X { if k >= 0 { qi(1i128 << k) } else { q(1, 1i128 << (-k)) } }
+/// 2^k as an f64 (exact for |k| <= 1022)
+fn p2(k: i32) -> f64 { 2.0f64.powi(k) }
+fn scl4(a: &Q4<X>, l: X) -> Q4<X> { [a[0] * l, a[1] * l, a[2] * l, a[3] * l] }
+fn scl3(a: &[X; 3], l: X) -> [X; 3] { [a[0] * l, a[1] * l, a[2] * l] }
+fn box4(r: i64) -> Vec<[i64; 4]> { let al: Vec<i64> = (-r..=r).collect(); let mut v = Vec::new(); tuples(&al, 4, |a| v.push([a[0], a[1], a[2], a[3]])); v }
+fn box3(al: &[i64]) -> Vec<[i64; 3]> { let mut v = Vec::new(); tuples(al, 3, |a| v.push([a[0], a[1], a[2]])); v }
+fn mixed(a: &[i64], b: &[i64]) -> bool { a.iter().chain(b.iter()).any(|v| *v < 0) && a.iter().chain(b.iter()).any(|v| *v > 0) }
+trait FlX: Fl { const MINPOS: f64; }
+impl FlX for f64 { const MINPOS: f64 = f64::MIN_POSITIVE; }
+impl FlX for f32 { const MINPOS: f64 = f32::MIN_POSITIVE as f64; }
+fn asum(a: &[f64]) -> f64 { a.iter().map(|v| v.abs()).sum() }
+fn amax(a: &[f64]) -> f64 { a.iter().fold(0.0, |m, v| m.max(v.abs())) }
+/// all |got_i - want_i| <= tol, NaN never passes
+fn within(got: &[f64], want: &[f64], tol: f64) -> bool { got.iter().zip(want).all(|(g, w)| (g - w).abs() <= tol) }
+
+// ---- exact: signed boxes ----------------------------------------------------------------------------
+fn sections_signed(rep: &Report, th: bool) {
+    rep.section("signed box: Hamilton product, conjugate reversal, multiplicative norm, dot, inverse of a product and cancellation sequences on all sign patterns",
+        "every ordered pair p, q in {-2..2}^4 (thorough {-3..3}^4), zero included, exact rationals: real p*q == reference table product; (p*q).conjugate() == q.conjugate()*p.conjugate() == reference; |p*q|^2 == |p|^2 |q|^2 == reference; p.dot(q) == sum of products; for p, q both non-zero (quick: q restricted to {-1,0,1}^4 for this part) additionally the call sequences (p*q).inverse() == q.inverse()*p.inverse() == conj(pq)/(|p|^2 |q|^2), (p*q)*q.inverse() == p, p.inverse()*(p*q) == q, p.inverse().inverse() == p (consequences of the two-sided inverse and of associativity); the lattice sections above decide the polynomial laws through the degree argument on non-negative points only, this section runs the real code on every sign pattern so that the verdict does not rest on the branch-freedom premise alone; non-trivial: p*q != q*p", true, false, |s| {
+        s.require_classes(&["mixed-signs", "order-matters", "p-or-q-zero", "both-non-zero"]);
+        let pts = box4(if th { 3 } else { 2 });
+        let (nmix, nord, nzero, nboth) = (Cnt::new(), Cnt::new(), Cnt::new(), Cnt::new());
+        pts.par_iter().for_each(|a| {
+            let (mut e, mut nt, mut mix, mut zero, mut both) = (0u64, 0u64, 0u64, 0u64, 0u64);
+            for b in &pts {
+                let (p, qq): (Q4<X>, Q4<X>) = (xs(a), xs(b));
+                let (want, rev) = (ham(&p, &qq), ham(&qq, &p));
+                let (np, nq) = (norm2(&p), norm2(&qq));
+                let nz = np != Z && nq != Z;
+                e += 1; if want != rev { nt += 1; }
+                if nz { both += 1; } else { zero += 1; }
+                if mixed(a, b) { mix += 1; }
+                let w = wsum(a) + wsum(b);
+                let inp = || json!({"p_xyzw": jxs(&p), "q_xyzw": jxs(&qq)});
+                if let Some((g, cl, cr, n_pq, n_p_n_q, dt)) = s.call("Quaternion * Quaternion", inp, || { let (pp, qv) = (mkq(&p), mkq(&qq)); (dq(pp * qv), dq((pp * qv).conjugate()), dq(qv.conjugate() * pp.conjugate()), (pp * qv).magnitude_squared(), pp.magnitude_squared() * qv.magnitude_squared(), pp.dot(qv)) }) {
+                    if g != want { viol(s, "Quaternion * Quaternion", "not-the-hamilton-product", || json!({"input": inp(), "got_xyzw": jxs(&g), "want_xyzw": jxs(&want), "got_equals_q*p": g == rev}), w); }
+                    if cl != cr || cl != conj(&want) { viol(s, "Quaternion::conjugate", "does-not-reverse-products", || json!({"input": inp(), "(p*q)*": jxs(&cl), "q* p*": jxs(&cr), "want": jxs(&conj(&want))}), w); }
+                    if n_pq != n_p_n_q || n_pq != np * nq { viol(s, "Quaternion * Quaternion", "norm-not-multiplicative", || json!({"input": inp(), "|p*q|^2": jx(n_pq), "|p|^2|q|^2": jx(np * nq)}), w); }
+                    if dt != dotn(&p, &qq) { viol(s, "Quaternion::dot", "not-the-sum-of-products", || json!({"input": inp(), "p.q": jx(dt), "want": jx(dotn(&p, &qq))}), w); }
+                    if s.wants_sample() && want != rev && a.iter().all(|v| *v < 0) && b.iter().any(|v| *v > 0) { s.sample(json!({"input": inp(), "real p*q": jxs(&g)})); }
+                }
+                if nz && (th || b.iter().all(|v| v.abs() <= 1)) {
+                    if let Some((ipq, iqip, c1, c2, ii)) = s.call("Quaternion::inverse", inp, || { let (pp, qv) = (mkq(&p), mkq(&qq)); (dq((pp * qv).inverse()), dq(qv.inverse() * pp.inverse()), dq((pp * qv) * qv.inverse()), dq(pp.inverse() * (pp * qv)), dq(pp.inverse().inverse())) }) {
+                        let n = np * nq; let cw = conj(&want); let winv = [cw[0] / n, cw[1] / n, cw[2] / n, cw[3] / n];
+                        if ipq != iqip || ipq != winv { viol(s, "Quaternion::inverse", "inverse-of-a-product-is-not-the-reversed-product-of-inverses", || json!({"input": inp(), "(p*q)^-1": jxs(&ipq), "q^-1 p^-1": jxs(&iqip), "want": jxs(&winv)}), w); }
+                        if c1 != p { viol(s, "Quaternion::inverse", "(p*q)*inverse(q)-is-not-p", || json!({"input": inp(), "got": jxs(&c1)}), w); }
+                        if c2 != qq { viol(s, "Quaternion::inverse", "inverse(p)*(p*q)-is-not-q", || json!({"input": inp(), "got": jxs(&c2)}), w); }
+                        if ii != p { viol(s, "Quaternion::inverse", "inverse(inverse(p))-is-not-p", || json!({"input": inp(), "got": jxs(&ii)}), w); }
+                    }
+                }
+            }
+            s.evals(e, nt);
+            cadd(&nmix, mix); cadd(&nord, nt); cadd(&nzero, zero); cadd(&nboth, both);
+        });
+        s.class_n("mixed-signs", nmix.get()); s.class_n("order-matters", nord.get()); s.class_n("p-or-q-zero", nzero.get()); s.class_n("both-non-zero", nboth.get());
+        s.meta("box_range", json!(if th { 3 } else { 2 }));
+    });
+
+    rep.section("signed box: associativity on all sign patterns",
+        "quick: every (p, q, r) in ({-1,0,1}^4)^3 (531441 triples); thorough: p, q in {-2..2}^4, r in {-1,0,1}^4 (31.6 million): real (p*q)*r == real p*(q*r) == reference triple product; non-trivial: p, q, r all non-zero", true, false, |s| {
+        s.require_classes(&["negative-component-present"]);
+        let (ps, rs) = (box4(if th { 2 } else { 1 }), box4(1));
+        let nneg = Cnt::new();
+        ps.par_iter().for_each(|a| {
+            let (mut e, mut nt, mut ng) = (0u64, 0u64, 0u64);
+            let p: Q4<X> = xs(a);
+            for b in &ps { let qq: Q4<X> = xs(b); let pq = ham(&p, &qq); for c in &rs {
+                let r: Q4<X> = xs(c);
+                e += 1; if wsum(a) != 0 && wsum(b) != 0 && wsum(c) != 0 { nt += 1; }
+                if a.iter().chain(b.iter()).chain(c.iter()).any(|v| *v < 0) { ng += 1; }
+                let want = ham(&pq, &r);
+                let inp = || json!({"p_xyzw": jxs(&p), "q_xyzw": jxs(&qq), "r_xyzw": jxs(&r)});
+                if let Some((l, rr)) = s.call("Quaternion * Quaternion", inp, || (dq((mkq(&p) * mkq(&qq)) * mkq(&r)), dq(mkq(&p) * (mkq(&qq) * mkq(&r))))) {
+                    let w = wsum(a) + wsum(b) + wsum(c);
+                    if l != rr { viol(s, "Quaternion * Quaternion", "not-associative", || json!({"input": inp(), "(p*q)*r": jxs(&l), "p*(q*r)": jxs(&rr)}), w); }
+                    else if l != want { viol(s, "Quaternion * Quaternion", "triple-product-wrong", || json!({"input": inp(), "got": jxs(&l), "want": jxs(&want)}), w); }
+                    if s.wants_sample() && a[0] < 0 && b[1] > 0 && c[2] < 0 && a[3] != 0 { s.sample(json!({"input": inp(), "(p*q)*r = p*(q*r) =": jxs(&l)})); }
+                }
+            } }
+            s.evals(e, nt); cadd(&nneg, ng);
+        });
+        s.class_n("negative-component-present", nneg.get());
+    });
+
+    rep.section("signed box: application composes on all sign patterns, with tiny and huge vectors (exact)",
+        "p, q in {-1,0,1}^4 non-zero (thorough: p in {-2..2}^4), v in {-1,0,2}^3 (thorough {-2,-1,0,1,3}^3) non-zero, taken as is and scaled by 2^-60 and by 2^60 (quick: as is and at one of the two scales, alternating over the vectors) (exact rationals; the application is linear in v, so the result must scale exactly: an early-out or an epsilon guard on short vectors misfires at 2^-60, which is far below the 2^-52 epsilon of the exact type); Vec4 with w in {5, -7, 2^-60, 2^60} (rotating by case): real (p*q)*v == real p*(q*v) == reference sandwich (pq)(v,0)(pq)*, w returned untouched; non-trivial: p*q != q*p", true, false, |s| {
+        s.require_classes(&["mixed-signs", "vector scaled by 2^-60", "vector scaled by 2^60", "unscaled"]);
+        let (ps, qs) = (box4(if th { 2 } else { 1 }), box4(1));
+        let vs = box3(if th { &[-2, -1, 0, 1, 3] } else { &[-1, 0, 2] });
+        let ws = [qi(5), qi(-7), p2x(-60), p2x(60)];
+        let (nmix, n_dn, n_up, n_1) = (Cnt::new(), Cnt::new(), Cnt::new(), Cnt::new());
+        ps.par_iter().for_each(|a| {
+            if wsum(a) == 0 { return; }
+            let p: Q4<X> = xs(a);
+            let (mut e, mut nt, mut mix) = (0u64, 0u64, 0u64);
+            for b in &qs { if wsum(b) == 0 { continue; } let qq: Q4<X> = xs(b); let pq = ham(&p, &qq); let ord = pq != ham(&qq, &p);
+                for (vi, c) in vs.iter().enumerate() { if wsum(c) == 0 { continue; } for (ki, k) in [0i32, -60, 60].iter().enumerate() {
+                    if !th && ki != 0 && (ki == 1) != (vi % 2 == 0) { continue; }   // quick: each vector unscaled and at one of the two extreme scales (alternating)
+                    let v: [X; 3] = scl3(&xs(c), p2x(*k));
+                    let w4 = ws[(vi + ki) % 4];
+                    let v4a = [v[0], v[1], v[2], w4];
+                    e += 1; if ord { nt += 1; } if mixed(a, b) { mix += 1; }
+                    match ki { 0 => n_1.inc(), 1 => n_dn.inc(), _ => n_up.inc() }
+                    let want = rot(&pq, &v);
+                    let inp = || json!({"p_xyzw": jxs(&p), "q_xyzw": jxs(&qq), "v": jxs(&v), "vector = integer vector * 2^": k, "w_of_vec4": jx(w4)});
+                    let wt = wsum(a) + wsum(b) + wsum(c) + ki as u64;
+                    if let Some((l, r, l4, r4)) = s.call("Quaternion * Vec3", inp, || { let (pp, qv) = (mkq(&p), mkq(&qq)); (dv3(&((pp * qv) * v3(&v))), dv3(&(pp * (qv * v3(&v)))), dv4(&((pp * qv) * v4(&v4a))), dv4(&(pp * (qv * v4(&v4a))))) }) {
+                        if l != r { viol(s, "Quaternion * Vec3", "application-does-not-compose", || json!({"input": inp(), "(p*q)*v": jxs(&l), "p*(q*v)": jxs(&r)}), wt); }
+                        else if l != want { viol(s, "Quaternion * Vec3", "not-the-sandwich-q-v-q*", || json!({"input": inp(), "got": jxs(&l), "want": jxs(&want)}), wt); }
+                        if l4 != r4 { viol(s, "Quaternion * Vec4", "application-does-not-compose", || json!({"input": inp(), "(p*q)*v": jxs(&l4), "p*(q*v)": jxs(&r4)}), wt); }
+                        else if l4[3] != w4 { viol(s, "Quaternion * Vec4", "w-not-preserved", || json!({"input": inp(), "got": jxs(&l4)}), wt); }
+                        else if l4[..3] != want { viol(s, "Quaternion * Vec4", "xyz-not-the-sandwich-q-v-q*", || json!({"input": inp(), "got": jxs(&l4), "want_xyz": jxs(&want)}), wt); }
+                        if s.wants_sample() && ord && *k == -60 && a[0] < 0 && b[1] > 0 { s.sample(json!({"input": inp(), "real (p*q)*Vec3": jxs(&l), "real (p*q)*Vec4": jxs(&l4)})); }
+                    }
+                } }
+            }
+            s.evals(e, nt); cadd(&nmix, mix);
+        });
+        s.class_n("mixed-signs", nmix.get()); s.class_n("vector scaled by 2^-60", n_dn.get()); s.class_n("vector scaled by 2^60", n_up.get()); s.class_n("unscaled", n_1.get());
+    });
+
+    rep.section("extreme rational magnitudes (exact): inverse, normalized, magnitude and q*v on quaternions scaled by 2^+-30",
+        "every non-zero q in {-2..2}^4 (thorough {-3..3}^4) scaled by l in {2^-30, 2^30, 3*2^-30}: inverse(l q) == conj(q)/(l |q|^2), (l q)*inverse(l q) == inverse(l q)*(l q) == (0,0,0,1); if |q|^2 is a perfect square also magnitude(l q) == l |q|, magnitude_squared == its square, normalized(l q) == q/|q|, and the unit quaternion normalized(l q) applied to (1,2,3) equals the reference sandwich of q/|q|; the squared norm 2^-60 |q|^2 lies below 2^-52 (epsilon of the exact type), so a guard of the form `norm < epsilon` misfires here while the unguarded formula is exact; non-trivial: all", true, false, |s| {
+        s.require_classes(&["scaled down (|q|^2 < epsilon)", "scaled up", "perfect-square norm (sqrt exact)"]);
+        let pts = box4(if th { 3 } else { 2 });
+        let (ndn, nup, nsq) = (Cnt::new(), Cnt::new(), Cnt::new());
+        pts.par_iter().for_each(|a| {
+            if wsum(a) == 0 { return; }
+            let q0: Q4<X> = xs(a);
+            let n2i: i64 = a.iter().map(|v| v * v).sum();
+            let root = Q::isqrt(n2i as i128);
+            for (li, l) in [p2x(-30), p2x(30), qi(3) * p2x(-30)].into_iter().enumerate() {
+                let ql = scl4(&q0, l);
+                s.eval(true); if li == 1 { nup.inc(); } else { ndn.inc(); }
+                let inp = || json!({"q_xyzw": jxs(&ql), "q = integer quaternion * ": jx(l)});
+                let w = wsum(a) + li as u64;
+                if let Some((inv, lft, rgt)) = s.call("Quaternion::inverse", inp, || { let i = mkq(&ql).inverse(); (dq(i), dq(mkq(&ql) * i), dq(i * mkq(&ql))) }) {
+                    let n2 = norm2(&ql); let c = conj(&ql); let want = [c[0] / n2, c[1] / n2, c[2] / n2, c[3] / n2];
+                    if inv != want { viol(s, "Quaternion::inverse", "not-conjugate-over-squared-norm", || json!({"input": inp(), "got": jxs(&inv), "want": jxs(&want)}), w); }
+                    if lft != [Z, Z, Z, ONE] { viol(s, "Quaternion::inverse", "q*inverse(q)-is-not-1", || json!({"input": inp(), "q*inverse(q)": jxs(&lft)}), w); }
+                    if rgt != [Z, Z, Z, ONE] { viol(s, "Quaternion::inverse", "inverse(q)*q-is-not-1", || json!({"input": inp(), "inverse(q)*q": jxs(&rgt)}), w); }
+                }
+                if let Some(n) = root {
+                    nsq.inc(); s.eval(true);
+                    let norm = qi(n) * l;
+                    let unit = [q0[0] / qi(n), q0[1] / qi(n), q0[2] / qi(n), q0[3] / qi(n)];
+                    let v = [qi(1), qi(2), qi(3)];
+                    if let Some((m, m2, nz, app)) = s.call("Quaternion::magnitude", inp, || { let qq = mkq(&ql); (qq.magnitude(), qq.magnitude_squared(), dq(qq.normalized()), dv3(&(qq.normalized() * v3(&v)))) }) {
+                        if m != norm || m2 != norm * norm { viol(s, "Quaternion::magnitude", "not-the-euclidean-norm", || json!({"input": inp(), "magnitude": jx(m), "magnitude_squared": jx(m2), "want": jx(norm)}), w); }
+                        if nz != unit { viol(s, "Quaternion::normalized", "not-q-over-its-norm", || json!({"input": inp(), "got": jxs(&nz), "want": jxs(&unit)}), w); }
+                        else if app != rot(&unit, &v) { viol(s, "Quaternion * Vec3", "not-the-sandwich-q-v-q*", || json!({"input": inp(), "got": jxs(&app), "want": jxs(&rot(&unit, &v))}), w); }
+                        if s.wants_sample() && li == 0 && n == 3 { s.sample(json!({"input": inp(), "real_magnitude": jx(m), "real_normalized": jxs(&nz)})); }
+                    }
+                }
+            }
+        });
+        s.class_n("scaled down (|q|^2 < epsilon)", ndn.get()); s.class_n("scaled up", nup.get()); s.class_n("perfect-square norm (sqrt exact)", nsq.get());
+    });
+
+    rep.section("conversions: remaining operand forms of from_scalar_and_vec3 and the mint round trip (free terms)",
+        "from_scalar_and_vec3 with the vector handed over as [T;3], (T,T,T), Vec4 (its w dropped) and mint::Vector3; Quaternion::from(mint::Quaternion) and Into<mint::Quaternion>: run once on pairwise distinct uninterpreted terms, every output field must be the routed input; non-trivial: all", true, true, |s| {
+        let a: Q4<Term> = [Term::var(0), Term::var(1), Term::var(2), Term::var(3)];
+        let other = Term::var(77);
+        let expect = |site: &str, got: Result<Vec<Term>, Caught>, want: Vec<Term>| {
+            s.eval(true);
+            match got {
+                Ok(g) => if g != want { s.violation(&format!("Quaternion {}", site), "wrong-element", json!({"got": jd(&g), "want": jd(&want)})); },
+                Err(e) => s.violation(&format!("Quaternion {}", site), "panic", json!({"error": jd(&e)})),
+            }
+        };
+        expect("from_scalar_and_vec3<[T;3]>", catch(|| dq(Quaternion::from_scalar_and_vec3((a[3], [a[0], a[1], a[2]]))).to_vec()), a.to_vec());
+        expect("from_scalar_and_vec3<(T,T,T)>", catch(|| dq(Quaternion::from_scalar_and_vec3((a[3], (a[0], a[1], a[2])))).to_vec()), a.to_vec());
+        expect("from_scalar_and_vec3<Vec4>", catch(|| dq(Quaternion::from_scalar_and_vec3((a[3], Vec4 { x: a[0], y: a[1], z: a[2], w: other }))).to_vec()), a.to_vec());
+        expect("from_scalar_and_vec3<mint::Vector3>", catch(|| dq(Quaternion::from_scalar_and_vec3((a[3], mint::Vector3 { x: a[0], y: a[1], z: a[2] }))).to_vec()), a.to_vec());
+        expect("From<mint::Quaternion>", catch(|| dq(Quaternion::from(mint::Quaternion { s: a[3], v: mint::Vector3 { x: a[0], y: a[1], z: a[2] } })).to_vec()), a.to_vec());
+        expect("Into<mint::Quaternion>", catch(|| { let m: mint::Quaternion<Term> = mkq(&a).into(); vec![m.v.x, m.v.y, m.v.z, m.s] }), a.to_vec());
+        s.sample(json!({"a": jd(&a), "from_scalar_and_vec3((a3, Vec4(a0,a1,a2,other)))": "must be (a0,a1,a2,a3)"}));
+    });
+}
+
+// ---- exact: rotation_from_to_3d at very different / tiny / huge lengths, operand forms ---------------
+/// planar rational pairs (unit e1, cos(theta) e1 + sin(theta) e2) in rotated frames: every radicand of the run is a square
+fn planar_unit_pairs(axis_step: usize) -> Vec<([X; 3], [X; 3])> {
+    let axes: Vec<[X; 3]> = unit_axes().into_iter().enumerate().filter(|(i, _)| i % axis_step == 0).map(|(_, a)| a).collect();
+    let cps = circle_points();
+    let mut out = Vec::new();
+    for ax in &axes { for &(c, sn) in &cps { let m = rodrigues(ax, c, sn);
+        let (e1, e2) = ([m[0][0], m[1][0], m[2][0]], [m[0][1], m[1][1], m[2][1]]);
+        for &(ch, sh) in &cps { let (ct, st) = (ch * ch - sh * sh, (sh + sh) * ch);
+            out.push((e1, [e1[0] * ct + e2[0] * st, e1[1] * ct + e2[1] * st, e1[2] * ct + e2[2] * st]));
+        } } }
+    out
+}
+fn sections_from_to_more(rep: &Report, th: bool) {
+    // one section per pair of length exponents, so that the share of unmodelled runs (rational overflow in the exact type) is visible per scale
+    for (a, b) in [(12, 12), (-28, -28), (20, -28), (-28, 20)] {
+        rep.section(&format!("rotation_from_to_3d exact: tiny, huge and very different lengths (all-rational runs), |from| x 2^{}, |to| x 2^{}", a, b),
+            "(G1) the planar rational unit pairs of family F2 (every 16th axis, thorough every 4th; all circle points, includes theta = 0 and pi) with from scaled by 2^a and to by 2^b, one section for each (a,b) in {(12,12), (-28,-28), (20,-28), (-28,20)}; (G2) exactly opposite integer pairs from = 2^a d, to = -k 2^b d, d in {-5..5}^3 minus 0, k in {1, 3}, kept when the branch radicand is a square.  The result must not depend on the lengths: at (-28,-28) the quantity w = |from||to| + from.to is of order 2^-56, below the 2^-52 epsilon of the exact type, so an absolute threshold (one that forgets the factor |from||to|) sends every pair into the 180-degree branch, and a normalisation guarded by `norm < epsilon` returns the identity; verdicts as in the exact section above (unit quaternion, from mapped onto the positive multiple of to, Vec4 arguments, four matrix wrappers); non-trivial: pair not parallel", true, false, |s| {
+            s.require_classes(&FT_CLASSES);
+            let base = planar_unit_pairs(if th { 4 } else { 16 });
+            let mut pairs: Vec<([X; 3], [X; 3])> = Vec::new();
+            for (f, t) in &base { pairs.push((scl3(f, p2x(a)), scl3(t, p2x(b)))); }
+            let n1 = pairs.len();
+            for d in int_dirs(5) { let dx: [X; 3] = xs(&d); for k in [1, 3] { pairs.push((scl3(&dx, p2x(a)), scl3(&dx, qi(-k) * p2x(b)))); } }
+            run_pairs(s, &pairs);
+            s.meta("pairs_generated", json!({"G1 planar rational, scaled": n1, "G2 opposite, scaled": pairs.len() - n1}));
+            s.meta("scale_exponents", json!([a, b]));
+        });
+    }
+
+    rep.section("rotation_from_to_3d operand forms: [T;3], (T,T,T) and Vec4 with w != 0, Quaternion and the four matrix wrappers (exact)",
+        "the all-rational pairs of (F2, every 8th axis, lengths (2, 1/3)) and of (F3, k = 2): the builder called with both arguments as [T;3], as (T,T,T), and as Vec4 with w = 5 (from) and w = -7 (to) must return exactly the quaternion / matrix returned for Vec3 arguments (the w of a Vec4 direction is not part of the direction); the Vec3 result itself is judged in the sections above; non-trivial: pair not parallel", true, false, |s| {
+        s.require_classes(&["general", "antiparallel"]);
+        let mut pairs: Vec<([X; 3], [X; 3])> = planar_unit_pairs(8).into_iter().map(|(f, t)| (scl3(&f, qi(2)), scl3(&t, q(1, 3)))).collect();
+        for d in int_dirs(5) { let dx: [X; 3] = xs(&d); pairs.push((dx, scl3(&dx, qi(-2)))); }
+        let (ngen, nanti) = (Cnt::new(), Cnt::new());
+        pairs.par_iter().for_each(|(f, t)| {
+            let kind = classify(f, t);
+            if !kind.exact() { return; }
+            s.eval(kind != Kind::Parallel);
+            if kind.anti() { nanti.inc(); } else { ngen.inc(); }
+            let inp = || json!({"from": jxs(f), "to": jxs(t), "pair": kind.class()});
+            let w = wx(f) + wx(t);
+            let (f4, t4) = (Vec4 { x: f[0], y: f[1], z: f[2], w: qi(5) }, Vec4 { x: t[0], y: t[1], z: t[2], w: qi(-7) });
+            if let Some((b, ar, tu, v4w)) = s.call("Quaternion::rotation_from_to_3d", inp, || (
+                dq(Quaternion::rotation_from_to_3d(v3(f), v3(t))), dq(Quaternion::rotation_from_to_3d([f[0], f[1], f[2]], [t[0], t[1], t[2]])),
+                dq(Quaternion::rotation_from_to_3d((f[0], f[1], f[2]), (t[0], t[1], t[2]))), dq(Quaternion::rotation_from_to_3d(f4, t4)))) {
+                for (form, g) in [("[T;3]", ar), ("(T,T,T)", tu), ("Vec4 (w != 0)", v4w)] {
+                    if g != b { viol(s, &format!("Quaternion::rotation_from_to_3d<{}>", form), "operand-form-differs-from-vec3-form", || json!({"input": inp(), "vec3": jxs(&b), "this form": jxs(&g)}), w); }
+                }
+            }
+            macro_rules! forms { ($M:ty, $N:expr) => {{
+                let name = <$M as QM<X, $N>>::NAME;
+                if let Some((b, ar, tu, v4w)) = s.call(&format!("{}::rotation_from_to_3d", name), inp, || (
+                    <$M>::rotation_from_to_3d(v3(f), v3(t)).decode(), <$M>::rotation_from_to_3d([f[0], f[1], f[2]], [t[0], t[1], t[2]]).decode(),
+                    <$M>::rotation_from_to_3d((f[0], f[1], f[2]), (t[0], t[1], t[2])).decode(), <$M>::rotation_from_to_3d(f4, t4).decode())) {
+                    for (form, g) in [("[T;3]", ar), ("(T,T,T)", tu), ("Vec4 (w != 0)", v4w)] {
+                        if g != b { viol(s, &format!("{}::rotation_from_to_3d<{}>", name, form), "operand-form-differs-from-vec3-form", || json!({"input": inp(), "vec3": jmat(&b), "this form": jmat(&g)}), w); }
+                    }
+                }
+            }} }
+            forms!(rm::Mat3<X>, 3); forms!(cm::Mat3<X>, 3); forms!(rm::Mat4<X>, 4); forms!(cm::Mat4<X>, 4);
+        });
+        s.class_n("general", ngen.get()); s.class_n("antiparallel", nanti.get());
+        s.sample(json!({"from": "Vec4(3,4,0,5)", "to": "Vec4(-6,-8,0,-7)", "must equal": "rotation_from_to_3d(Vec3(3,4,0), Vec3(-6,-8,0))"}));
+    });
+}
+
+// ---- float tiers of the algebra and of the application ----------------------------------------------
+/// f64 oracle values of everything the algebra clauses speak about, from the very floats handed to the code
+struct AlgWant { prod: Q4<f64>, conj: Q4<f64>, inv: Q4<f64>, mag: f64, mag2: f64, nrm: Q4<f64>, dot: f64, magpq: f64, sp: f64, sq: f64 }
+fn alg_want(p: &Q4<f64>, q: &Q4<f64>) -> AlgWant {
+    let (np, nq) = (norm2(p), norm2(q));
+    let c = conj(p);
+    AlgWant { prod: ham(p, q), conj: c, inv: [c[0] / np, c[1] / np, c[2] / np, c[3] / np], mag: np.sqrt(), mag2: np, nrm: [p[0] / np.sqrt(), p[1] / np.sqrt(), p[2] / np.sqrt(), p[3] / np.sqrt()],
+              dot: p[0] * q[0] + p[1] * q[1] + p[2] * q[2] + p[3] * q[3], magpq: (np * nq).sqrt(), sp: asum(p), sq: asum(q) }
+}
+macro_rules! float_algebra { ($s:expr, $T:ty, $K:expr) => {{
+    let s: &Section = $s;
+    s.require_classes(&["integer-valued operands (every product exact)", "full-mantissa operands", "unscaled", "both scaled up (2^K, 2^K)", "both scaled down (2^-K, 2^-K)", "opposite scales (2^K, 2^-K)"]);
+    let (eps, kk): (f64, i32) = (<$T as Fl>::EPS, $K);
+    let tf = |v: f64| <$T as Fl>::f(v);
+    let name = <$T as Fl>::NAME;
+    let kf = vx::fl::K;
+    let mut ps: Vec<(Q4<$T>, bool, u64)> = Vec::new();
+    for a in box4(if s.thorough() { 3 } else { 2 }) { if wsum(&a) == 0 { continue; }
+        ps.push(([tf(a[0] as f64), tf(a[1] as f64), tf(a[2] as f64), tf(a[3] as f64)], true, wsum(&a)));
+        ps.push(([tf(0.1) * tf(a[0] as f64) + tf(0.013), tf(0.1) * tf(a[1] as f64) - tf(0.007), tf(0.1) * tf(a[2] as f64) + tf(0.003), tf(0.1) * tf(a[3] as f64) - tf(0.011)], false, wsum(&a) + 50));
+    }
+    let mut qs: Vec<(Q4<$T>, bool)> = [[1.0, 2.0, 3.0, 4.0], [-1.0, 2.0, -3.0, 1.0], [0.0, 0.0, 1.0, 0.0], [3.0, -1.0, 0.0, 2.0], [-2.0, -2.0, 1.0, -1.0], [0.0, 0.0, 0.0, 1.0]].iter().map(|a: &[f64; 4]| ([tf(a[0]), tf(a[1]), tf(a[2]), tf(a[3])], true)).collect();
+    for a in [[0.3, -0.7, 0.2, 0.6], [-0.11, 0.23, 0.37, -0.53], [1.7, 0.0, -2.9, 0.013]] { qs.push(([tf(a[0]), tf(a[1]), tf(a[2]), tf(a[3])], false)); }
+    let scales: [(i32, i32, &str); 5] = [(0, 0, "unscaled"), (kk, kk, "both scaled up (2^K, 2^K)"), (-kk, -kk, "both scaled down (2^-K, 2^-K)"), (kk, -kk, "opposite scales (2^K, 2^-K)"), (1, -3, "unscaled")];
+    s.meta("K", json!(kk)); s.meta("left_operands", json!(ps.len())); s.meta("right_operands", json!(qs.len()));
+    let cl: std::sync::Mutex<BTreeMap<&'static str, u64>> = std::sync::Mutex::new(BTreeMap::new());
+    ps.par_iter().for_each(|(p0, pint, pw)| {
+        let mut lc: BTreeMap<&'static str, u64> = BTreeMap::new();
+        for (q0, qint) in &qs {
+            let (pf, qf): (Q4<f64>, Q4<f64>) = ([p0[0].d(), p0[1].d(), p0[2].d(), p0[3].d()], [q0[0].d(), q0[1].d(), q0[2].d(), q0[3].d()]);
+            let want = alg_want(&pf, &qf);
+            let exact = *pint && *qint;
+            for (k1, k2, scls) in scales {
+                let (s1, s2) = (tf(p2(k1)), tf(p2(k2)));
+                let (p, q): (Q4<$T>, Q4<$T>) = ([p0[0] * s1, p0[1] * s1, p0[2] * s1, p0[3] * s1], [q0[0] * s2, q0[1] * s2, q0[2] * s2, q0[3] * s2]);
+                s.eval(true);
+                *lc.entry(scls).or_insert(0) += 1; *lc.entry(if exact { "integer-valued operands (every product exact)" } else { "full-mantissa operands" }).or_insert(0) += 1;
+                let inp = || json!({"p_xyzw": [p[0].d(), p[1].d(), p[2].d(), p[3].d()], "q_xyzw": [q[0].d(), q[1].d(), q[2].d(), q[3].d()], "p = p0 * 2^": k1, "q = q0 * 2^": k2, "p0": pf, "q0": qf});
+                let wt = *pw + (k1.unsigned_abs() + k2.unsigned_abs()) as u64;
+                let do_magpq = (k1 + k2).abs() <= kk;   // |p*q|^2 must stay inside the float range for the magnitude of the product
+                let Some((prod, cj, inv, li, ri, mag, mag2, nrm, dt, magpq, mpmq)) = s.call(&format!("Quaternion algebra<{}>", name), inp, || {
+                    let (pp, qq) = (mkq(&p), mkq(&q)); let i = pp.inverse();
+                    (dq(pp * qq), dq(pp.conjugate()), dq(i), dq(pp * i), dq(i * pp), pp.magnitude(), pp.magnitude_squared(), dq(pp.normalized()), pp.dot(qq),
+                     if do_magpq { (pp * qq).magnitude() } else { tf(0.0) }, pp.magnitude() * qq.magnitude())
+                }) else { continue };
+                // undo the power-of-two scaling exactly in f64 (for f64 itself the unscaled values are those of the unscaled operands)
+                let un4 = |a: &Q4<$T>, k: i32| -> Q4<f64> { [a[0].d() * p2(-k), a[1].d() * p2(-k), a[2].d() * p2(-k), a[3].d() * p2(-k)] };
+                let d4 = |a: &Q4<$T>| -> Q4<f64> { [a[0].d(), a[1].d(), a[2].d(), a[3].d()] };
+                let g = un4(&prod, k1 + k2);
+                let tol = kf * eps * want.sp * want.sq;
+                if exact { if g != want.prod { viol(s, &format!("Quaternion * Quaternion<{}>", name), "integer-valued-product-not-exactly-the-hamilton-product", || json!({"input": inp(), "got / 2^(k1+k2)": g, "want": want.prod}), wt); } }
+                else if !within(&g, &want.prod, tol) { viol(s, &format!("Quaternion * Quaternion<{}>", name), "not-the-hamilton-product-within-error-bound", || json!({"input": inp(), "got / 2^(k1+k2)": g, "want": want.prod, "tolerance": tol}), wt); }
+                let g = un4(&cj, k1);
+                if g != want.conj { viol(s, &format!("Quaternion::conjugate<{}>", name), "not-(-x,-y,-z,w)", || json!({"input": inp(), "got / 2^k1": g}), wt); }
+                let g = un4(&inv, -k1); let tol = kf * eps * amax(&want.inv);
+                if !within(&g, &want.inv, tol) { viol(s, &format!("Quaternion::inverse<{}>", name), "not-conjugate-over-squared-norm-within-error-bound", || json!({"input": inp(), "got * 2^k1": g, "want": want.inv, "tolerance": tol}), wt); }
+                let one = [0.0, 0.0, 0.0, 1.0];
+                if !within(&d4(&li), &one, kf * eps) { viol(s, &format!("Quaternion::inverse<{}>", name), "q*inverse(q)-is-not-1-within-error-bound", || json!({"input": inp(), "q*inverse(q)": d4(&li)}), wt); }
+                if !within(&d4(&ri), &one, kf * eps) { viol(s, &format!("Quaternion::inverse<{}>", name), "inverse(q)*q-is-not-1-within-error-bound", || json!({"input": inp(), "inverse(q)*q": d4(&ri)}), wt); }
+                let (gm, gm2) = (mag.d() * p2(-k1), mag2.d() * p2(-k1) * p2(-k1));
+                if !within(&[gm], &[want.mag], kf * eps * want.mag) || !within(&[gm2], &[want.mag2], kf * eps * want.mag2) { viol(s, &format!("Quaternion::magnitude<{}>", name), "not-the-euclidean-norm-within-error-bound", || json!({"input": inp(), "magnitude / 2^k1": gm, "magnitude_squared / 4^k1": gm2, "want": [want.mag, want.mag2]}), wt); }
+                if !within(&d4(&nrm), &want.nrm, kf * eps) { viol(s, &format!("Quaternion::normalized<{}>", name), "not-q-over-its-norm-within-error-bound", || json!({"input": inp(), "got": d4(&nrm), "want": want.nrm}), wt); }
+                let gd = dt.d() * p2(-(k1 + k2));
+                if !within(&[gd], &[want.dot], kf * eps * want.sp * want.sq) { viol(s, &format!("Quaternion::dot<{}>", name), "not-the-sum-of-products-within-error-bound", || json!({"input": inp(), "got / 2^(k1+k2)": gd, "want": want.dot}), wt); }
+                let gpq = mpmq.d() * p2(-(k1 + k2));
+                if do_magpq { let gm = magpq.d() * p2(-(k1 + k2));
+                    if !within(&[gm], &[want.magpq], kf * eps * want.magpq) || !within(&[gm], &[gpq], kf * eps * want.magpq) { viol(s, &format!("Quaternion * Quaternion<{}>", name), "magnitude-not-multiplicative-within-error-bound", || json!({"input": inp(), "|p*q| / 2^(k1+k2)": gm, "|p|*|q| / 2^(k1+k2)": gpq, "want": want.magpq}), wt); } }
+                if s.wants_sample() && !exact && k1 == kk && k2 == kk && p0[0] < tf(0.0) { s.sample(json!({"input": inp(), "real p*q": d4(&prod), "real inverse(p)": d4(&inv), "real normalized(p)": d4(&nrm)})); }
+            }
+        }
+        let mut g = cl.lock().unwrap(); for (k, n) in lc { *g.entry(k).or_insert(0) += n; }
+    });
+    for (k, n) in cl.into_inner().unwrap() { s.class_n(k, n); }
+    // identity / default / zero in the float type
+    s.eval(true);
+    let (i, dflt, z) = (dq(Quaternion::<$T>::identity()), dq(<Quaternion<$T> as Default>::default()), dq(Quaternion::<$T>::zero()));
+    let one: Q4<$T> = [tf(0.0), tf(0.0), tf(0.0), tf(1.0)];
+    if i != one { s.violation(&format!("Quaternion::identity<{}>", name), "not-(0,0,0,1)", json!({"got": [i[0].d(), i[1].d(), i[2].d(), i[3].d()]})); }
+    if dflt != one { s.violation(&format!("Quaternion::default<{}>", name), "not-the-identity", json!({"got": [dflt[0].d(), dflt[1].d(), dflt[2].d(), dflt[3].d()]})); }
+    if z != [tf(0.0); 4] { s.violation(&format!("Quaternion::zero<{}>", name), "not-zero", json!({"got": [z[0].d(), z[1].d(), z[2].d(), z[3].d()]})); }
+}} }
+
+macro_rules! float_apply { ($s:expr, $T:ty, $K:expr) => {{
+    let s: &Section = $s;
+    s.require_classes(&["w<0", "w>=0", "vector unscaled", "vector scaled by 2^K", "vector scaled by 2^-K"]);
+    let (eps, kk): (f64, i32) = (<$T as Fl>::EPS, $K);
+    let tf = |v: f64| <$T as Fl>::f(v);
+    let name = <$T as Fl>::NAME;
+    let kf = vx::fl::K;
+    // unit quaternions p/|p| computed in f64 and rounded to the type (struct literal, never vek's normalized)
+    let unit = |a: &[i64; 4]| -> Q4<$T> { let n = (a.iter().map(|v| v * v).sum::<i64>() as f64).sqrt(); [tf(a[0] as f64 / n), tf(a[1] as f64 / n), tf(a[2] as f64 / n), tf(a[3] as f64 / n)] };
+    let us: Vec<[i64; 4]> = box4(if s.thorough() { 3 } else { 2 }).into_iter().filter(|a| wsum(a) != 0).collect();
+    let seconds: Vec<[i64; 4]> = vec![[1, 2, 3, 4], [-1, 1, 0, -1], [2, -1, 2, 0]];
+    let vs: [[f64; 3]; 10] = [[1.0, 0.0, 0.0], [0.0, 1.0, 0.0], [0.0, 0.0, 1.0], [1.0, 2.0, 3.0], [-2.0, 0.5, 5.0], [0.1, -0.7, 0.3], [-1.0, -1.0, -1.0], [3.0, -4.0, 0.0], [0.0, -2.0, 7.0], [1e-3, 2.0, -5e2]];
+    s.meta("K", json!(kk)); s.meta("unit_quaternions", json!(us.len())); s.meta("vectors", json!(vs.len()));
+    let cl: std::sync::Mutex<BTreeMap<&'static str, u64>> = std::sync::Mutex::new(BTreeMap::new());
+    us.par_iter().for_each(|a| {
+        let mut lc: BTreeMap<&'static str, u64> = BTreeMap::new();
+        let u = unit(a);
+        let uf: Q4<f64> = [u[0].d(), u[1].d(), u[2].d(), u[3].d()];
+        let nu = norm2(&uf);
+        for (vi, v0) in vs.iter().enumerate() { for (ki, k) in [0, kk, -kk].into_iter().enumerate() {
+            let sc = tf(p2(k));
+            let v: [$T; 3] = [tf(v0[0]) * sc, tf(v0[1]) * sc, tf(v0[2]) * sc];
+            let vf = [v[0].d(), v[1].d(), v[2].d()];
+            let w4: $T = [tf(1.0), tf(-7.0), tf(3.0) * tf(p2(kk)), -tf(p2(-kk))][(vi + ki) % 4];
+            let v4a: [$T; 4] = [v[0], v[1], v[2], w4];
+            s.eval(wsum(&a[..3]) != 0);
+            *lc.entry(if a[3] < 0 { "w<0" } else { "w>=0" }).or_insert(0) += 1;
+            *lc.entry(["vector unscaled", "vector scaled by 2^K", "vector scaled by 2^-K"][ki]).or_insert(0) += 1;
+            // the rotation of the very floats handed in: q (v,0) q* / |q|^2 (the rounded q is unit only up to 2 eps)
+            let r = rot(&uf, &vf); let want = [r[0] / nu, r[1] / nu, r[2] / nu];
+            let tol = kf * eps * asum(&vf);
+            let inp = || json!({"q_xyzw": uf, "q = fl(p/|p|), p": a, "v": vf, "v = v0 * 2^": k, "w_of_vec4": w4.d()});
+            let wt = wsum(a) + vi as u64 + 10 * ki as u64;
+            let Some((g3, g4)) = s.call(&format!("Quaternion * Vec3<{}>", name), inp, || (dv3(&(mkq(&u) * v3(&v))), dv4(&(mkq(&u) * v4(&v4a))))) else { continue };
+            let g3f = [g3[0].d(), g3[1].d(), g3[2].d()]; let g4f = [g4[0].d(), g4[1].d(), g4[2].d(), g4[3].d()];
+            if !within(&g3f, &want, tol) { viol(s, &format!("Quaternion * Vec3<{}>", name), "not-the-rotation-of-v-within-error-bound", || json!({"input": inp(), "got": g3f, "want": want, "tolerance": tol}), wt); }
+            if !(g4[3] == w4) { viol(s, &format!("Quaternion * Vec4<{}>", name), "w-not-preserved", || json!({"input": inp(), "got": g4f}), wt); }
+            if !within(&g4f[..3], &want, tol) { viol(s, &format!("Quaternion * Vec4<{}>", name), "xyz-not-the-rotation-of-v-within-error-bound", || json!({"input": inp(), "got": g4f, "want_xyz": want, "tolerance": tol}), wt); }
+            macro_rules! mat { ($M:ty, $N:expr) => {{
+                let site = format!("{}::from(Quaternion) * Vec{}<{}>", <$M as QM<$T, $N>>::NAME, $N, name);
+                let vin: [$T; $N] = { let mut t = [w4; $N]; for i in 0..3 { t[i] = v[i]; } t };
+                if let Some((m, mv)) = s.call(&site, inp, || { let m = <$M as QM<$T, $N>>::t_from_q(mkq(&u)); (m.decode(), m.t_mulv(vin)) }) {
+                    let mvf: Vec<f64> = mv.iter().map(|x| x.d()).collect();
+                    let mut by_fields = [0.0f64; 3]; for i in 0..3 { for j in 0..3 { by_fields[i] += m[i][j].d() * vf[j]; } }
+                    let gq: &[f64] = if $N == 3 { &g3f[..] } else { &g4f[..3] };
+                    // the matrix route and the sandwich route each carry their own rounding: both within tol of the true rotation, hence within 2 tol of each other
+                    // (when the real q*v is itself off, that is reported under the q*v site above and the cross comparison would only repeat it)
+                    let ok = within(&mvf[..3], &want, tol) && within(&by_fields, &want, tol) && (!within(gq, &want, tol) || within(&mvf[..3], gq, 2.0 * tol)) && ($N == 3 || (mvf[3] - w4.d()).abs() <= kf * eps * (asum(&vf) + w4.d().abs()));
+                    if !ok { viol(s, &site, "differs-from-quaternion-application-beyond-error-bound", || json!({"input": inp(), "real M*v": mvf, "decoded fields * v": by_fields, "real q*v": gq, "true rotation": want, "tolerance": tol}), wt); }
+                }
+            }} }
+            mat!(rm::Mat3<$T>, 3); mat!(cm::Mat3<$T>, 3); mat!(rm::Mat4<$T>, 4); mat!(cm::Mat4<$T>, 4);
+            // composition with a second unit quaternion
+            let b = &seconds[(vi + ki) % 3]; let u2 = unit(b);
+            let u2f: Q4<f64> = [u2[0].d(), u2[1].d(), u2[2].d(), u2[3].d()];
+            let pq = ham(&uf, &u2f); let npq = norm2(&pq); let rc = rot(&pq, &vf); let wantc = [rc[0] / npq, rc[1] / npq, rc[2] / npq];
+            s.eval(true);
+            if let Some((l, r, l4, r4)) = s.call(&format!("Quaternion * Vec3<{}>", name), inp, || { let (pp, qq) = (mkq(&u), mkq(&u2)); (dv3(&((pp * qq) * v3(&v))), dv3(&(pp * (qq * v3(&v)))), dv4(&((pp * qq) * v4(&v4a))), dv4(&(pp * (qq * v4(&v4a))))) }) {
+                let (lf, rf) = ([l[0].d(), l[1].d(), l[2].d()], [r[0].d(), r[1].d(), r[2].d()]);
+                let (l4f, r4f) = ([l4[0].d(), l4[1].d(), l4[2].d(), l4[3].d()], [r4[0].d(), r4[1].d(), r4[2].d(), r4[3].d()]);
+                if !within(&lf, &wantc, 2.0 * tol) || !within(&rf, &wantc, 2.0 * tol) { viol(s, &format!("Quaternion * Vec3<{}>", name), "application-does-not-compose-within-error-bound", || json!({"input": inp(), "second quaternion": u2f, "(p*q)*v": lf, "p*(q*v)": rf, "want": wantc, "tolerance": 2.0 * tol}), wt); }
+                if !within(&l4f[..3], &wantc, 2.0 * tol) || !within(&r4f[..3], &wantc, 2.0 * tol) || !(l4[3] == w4) || !(r4[3] == w4) { viol(s, &format!("Quaternion * Vec4<{}>", name), "application-does-not-compose-within-error-bound", || json!({"input": inp(), "second quaternion": u2f, "(p*q)*v": l4f, "p*(q*v)": r4f, "want_xyz": wantc, "tolerance": 2.0 * tol}), wt); }
+            }
+            if s.wants_sample() && ki == 2 && a[3] < 0 && a[0] != 0 && vi == 3 { s.sample(json!({"input": inp(), "real q*Vec3": g3f, "real q*Vec4": g4f, "oracle": want})); }
+        } }
+        let mut g = cl.lock().unwrap(); for (k, n) in lc { *g.entry(k).or_insert(0) += n; }
+    });
+    for (k, n) in cl.into_inner().unwrap() { s.class_n(k, n); }
+}} }
+
+fn sections_float_algebra(rep: &Report) {
+    let rule_a = "left operands p0: every non-zero point of {-2..2}^4 (thorough {-3..3}^4) as integer-valued floats, and fl(0.1)*a + (0.013,-0.007,0.003,-0.011) formed in the type (full mantissas); right operands q0: six integer-valued and three full-mantissa quaternions; scales p = p0 2^k1, q = q0 2^k2 with (k1,k2) in {(0,0), (K,K), (-K,-K), (K,-K), (1,-3)}, K = 40 (f32) / 400 (f64): squared norms 2^+-2K stay inside the float range, so every clause scales exactly and a formulation that multiplies two squared norms, or guards a division by an epsilon test, breaks at +-K.  Oracle in f64 from the very floats handed in (reference table product, conj/|p|^2, sqrt of the sum of squares), results unscaled exactly by the power of two; tolerance 256 eps x (sum|p_i|)(sum|q_i|) for product and dot (integer-valued operands: equality), 256 eps relative for inverse, magnitude, normalized, 256 eps for q*inverse(q) = inverse(q)*q = 1; |p*q| = |p||q| is evaluated where |k1+k2| <= K (the squared norm of the product must itself be representable); identity()/default()/zero() fields in the float type; non-trivial: all";
+    rep.section("float tier of the algebra f64: product, conjugate, inverse (two-sided), magnitude, normalized, dot at scales 2^+-400", rule_a, true, false, |s| float_algebra!(s, f64, 400));
+    rep.section("float tier of the algebra f32: product, conjugate, inverse (two-sided), magnitude, normalized, dot at scales 2^+-40", rule_a, true, false, |s| float_algebra!(s, f32, 40));
+    let rule_b = "unit quaternions q = fl(p/|p|) for every non-zero p in {-2..2}^4 (thorough {-3..3}^4) (built by struct literal) x 10 vectors (axes, integer, fractional, one of mixed magnitude) x vector scale 2^k, k in {0, K, -K}, K = 40 (f32) / 400 (f64); Vec4 w in {1, -7, 3*2^K, -2^-K}.  Oracle in f64: the rotation of the very floats, q (v,0) q* / |q|^2, tolerance 256 eps sum|v_i| (absolute, scales with v).  Checked: real q*Vec3; real q*Vec4 (xyz the same, w returned equal to the input w); real Mat3/Mat4::from(q) (both layouts) times v, and the decoded matrix fields times v, within the bound of the rotation and within twice the bound of the real q*v, Mat4 keeps w; (q*q2)*v and q*(q2*v) for a second unit quaternion within twice the bound of the rotation by the reference product; non-trivial: q != +-identity";
+    rep.section("float tier of the application f64: q*v, matrix from q, composition, vectors scaled by 2^+-400", rule_b, true, false, |s| float_apply!(s, f64, 400));
+    rep.section("float tier of the application f32: q*v, matrix from q, composition, vectors scaled by 2^+-40", rule_b, true, false, |s| float_apply!(s, f32, 40));
+}
+
+// ---- float: rotation_from_to_3d at tiny / huge / very different lengths ------------------------------
+/// `$scales`: exponent pairs (a, b): from = 2^a d1, to = 2^b d2 over all ordered pairs of integer directions of radius `$r`,
+/// plus exactly opposite pairs to = -3 * 2^(b-a) * from.  Same oracle, classification and tolerances as the float tier above.
+macro_rules! float_from_to_scaled { ($s:expr, $T:ty, $scales:expr, $r:expr) => {{
+    let s: &Section = $s;
+    let tf = |v: f64| <$T as Fl>::f(v);
+    let eps = <$T as Fl>::EPS;
+    let name = <$T as Fl>::NAME;
+    let dirs = int_dirs($r);
+    let scales: Vec<(i32, i32)> = $scales;
+    s.meta("scale_exponents (from, to)", json!(scales)); s.meta("directions", json!(dirs.len()));
+    let mut cases: Vec<([$T; 3], [$T; 3], Value, u64)> = Vec::new();
+    for (si, &(a, b)) in scales.iter().enumerate() { for d1 in &dirs { for d2 in &dirs {
+        let (la, lb) = (tf(p2(a)), tf(p2(b)));
+        cases.push(([la * (d1[0] as $T), la * (d1[1] as $T), la * (d1[2] as $T)], [lb * (d2[0] as $T), lb * (d2[1] as $T), lb * (d2[2] as $T)], json!({"from = 2^a * d1, to = 2^b * d2": {"a": a, "b": b, "d1": d1, "d2": d2}}), wsum(d1) + wsum(d2) + 10 * si as u64));
+    } } }
+    let mut cl: BTreeMap<&'static str, u64> = BTreeMap::new();
+    for (from, to, tag, weight) in &cases {
+        let (from, to, weight) = (*from, *to, *weight);
+        let (f, t) = ([from[0].d(), from[1].d(), from[2].d()], [to[0].d(), to[1].d(), to[2].d()]);
+        let (collinear, positive) = exact_collinear(&f, &t);
+        let (ff, tt, dt) = (dotn(&f, &f), dotn(&t, &t), dotn(&f, &t));
+        let (nf, ntt) = (ff.sqrt(), tt.sqrt());
+        let want = [t[0] / ntt * nf, t[1] / ntt * nf, t[2] / ntt * nf];
+        let anti = collinear && !positive;
+        let one_plus_cos = 1.0 + dt / nf / ntt;
+        let near = !anti && one_plus_cos < 1.0 / 64.0;
+        let tol = if anti { vx::fl::K * eps * nf } else if near { 8.0 * eps.sqrt() * nf } else { vx::fl::K * eps * nf / (one_plus_cos / 2.0).sqrt() };
+        // does the product of the two squared lengths leave the range of the float type? (formed in the type, like any implementation that forms it would)
+        let pr = tf(ff) * tf(tt);
+        let range = if pr.d().is_infinite() { "|from|^2 |to|^2 overflows" } else if pr.d() < <$T as FlX>::MINPOS { "|from|^2 |to|^2 underflows" } else { "|from|^2 |to|^2 representable" };
+        *cl.entry(range).or_insert(0) += 1;
+        *cl.entry(if anti { "opposite (exactly)" } else if near { "nearly opposite" } else if collinear { "parallel" } else { "general" }).or_insert(0) += 1;
+        let cls = match (range, anti) {
+            ("|from|^2 |to|^2 overflows", _) => "pair-whose-squared-lengths-product-overflows-not-mapped-onto-to",
+            ("|from|^2 |to|^2 underflows", _) => "pair-whose-squared-lengths-product-underflows-not-mapped-onto-to",
+            (_, true) => "opposite-pair-not-mapped-onto-to-within-error-bound",
+            _ => if near { "nearly-opposite-pair-not-mapped-onto-to-within-sqrt-eps" } else { "does-not-map-from-onto-to-within-error-bound" } };
+        let inp = || json!({"from": f, "to": t, "construction": tag, "exactly_opposite": anti, "|from|^2*|to|^2 in the type": pr.d()});
+        s.eval(!(collinear && positive));
+        let site = format!("Quaternion::rotation_from_to_3d<{}>", name);
+        if let Some((qd, r)) = s.call(&site, inp, || { let q = Quaternion::<$T>::rotation_from_to_3d(v3(&from), v3(&to)); (dq(q), dv3(&(q * v3(&from)))) }) {
+            let qf: Q4<f64> = [qd[0].d(), qd[1].d(), qd[2].d(), qd[3].d()];
+            let rf = [r[0].d(), r[1].d(), r[2].d()];
+            let unit = (norm2(&qf) - 1.0).abs() <= vx::fl::K * eps;
+            if !unit && range == "|from|^2 |to|^2 representable" { viol(s, &site, "not-a-unit-quaternion-within-error-bound", || json!({"input": inp(), "got_xyzw": qf.map(|v| format!("{:e}", v)), "norm_squared": format!("{:e}", norm2(&qf))}), weight); }
+            if !within(&rf, &want, tol) || (!unit && range != "|from|^2 |to|^2 representable") { viol(s, &site, cls, || json!({"input": inp(), "got_xyzw": qf.map(|v| format!("{:e}", v)), "real q*from": rf.map(|v| format!("{:e}", v)), "want": want, "tolerance": tol}), weight); }
+            if s.wants_sample() && !collinear && from[0] != tf(0.0) && from[1] != tf(0.0) { s.sample(json!({"input": inp(), "real_quaternion_xyzw": qf.map(|v| format!("{:e}", v)), "real q*from": rf.map(|v| format!("{:e}", v)), "oracle": want})); }
+        }
+        macro_rules! mat { ($M:ty, $N:expr) => {{
+            let site = format!("{}::rotation_from_to_3d<{}>", <$M as QM<$T, $N>>::NAME, name);
+            s.eval(!(collinear && positive));
+            if let Some((m, mv)) = s.call(&site, inp, || { let m = <$M as QR<$T, $N>>::t_from_to(from, to); (m.decode(), m.t_mulv(pad::<$T, $N>(&from, tf(0.0)))) }) {
+                let mut by_fields = [0.0f64; 3]; for i in 0..3 { for j in 0..3 { by_fields[i] += m[i][j].d() * f[j]; } }
+                let mvf: Vec<f64> = mv.iter().map(|v| v.d()).collect();
+                let ok = within(&mvf[..3], &want, tol) && within(&by_fields, &want, tol) && ($N == 3 || mvf[$N - 1] == 0.0);
+                if !ok { viol(s, &site, cls, || json!({"input": inp(), "real M*from": mvf.iter().map(|v| format!("{:e}", v)).collect::<Vec<_>>(), "fields*from": by_fields.map(|v| format!("{:e}", v)), "want": want, "tolerance": tol}), weight); }
+            }
+        }} }
+        mat!(rm::Mat3<$T>, 3); mat!(cm::Mat3<$T>, 3); mat!(rm::Mat4<$T>, 4); mat!(cm::Mat4<$T>, 4);
+    }
+    for (k, n) in cl { s.class_n(k, n); }
+}} }
+
+fn sections_from_to_float_scaled(rep: &Report, th: bool) {
+    let r = if th { 2 } else { 1 };
+    let rule_m = "all ordered pairs (d1, d2) of integer directions of {-1,0,1}^3 minus 0 (thorough {-2..2}^3: 124^2) - they include parallel and exactly opposite pairs - with from = 2^a d1, to = 2^b d2, (a,b) in {(M,M), (-M,-M), (M,-M), (-M,M), (K,-K), (-K,K)}, M = 12 (f32) / 100 (f64), K = 40 (f32) / 400 (f64): the product |from|^2 |to|^2 stays representable in all of them, the rotation does not depend on the two lengths, and q*from must have the length of from.  At (-M,-M) the quantity w = |from||to| + from.to is far below epsilon in absolute terms (2^-24 in f32, 2^-200 in f64): a 180-degree test with an absolute threshold sends every pair into the antiparallel branch.  Oracle, exact classification of the pair and tolerances exactly as in the float tier above; checked: the quaternion (unit, q*from), Mat3/Mat4 wrappers in both layouts (real M*from and decoded fields*from); non-trivial: pair not parallel";
+    rep.section("rotation_from_to_3d float tier f64: lengths 2^+-100 and mixed 2^+-400 (squared-length product representable)", rule_m, true, false, |s| {
+        s.require_classes(&["|from|^2 |to|^2 representable", "opposite (exactly)", "parallel", "general"]);
+        float_from_to_scaled!(s, f64, vec![(100, 100), (-100, -100), (100, -100), (-100, 100), (400, -400), (-400, 400)], r) });
+    rep.section("rotation_from_to_3d float tier f32: lengths 2^+-12 and mixed 2^+-40 (squared-length product representable)", rule_m, true, false, |s| {
+        s.require_classes(&["|from|^2 |to|^2 representable", "opposite (exactly)", "parallel", "general"]);
+        float_from_to_scaled!(s, f32, vec![(12, 12), (-12, -12), (12, -12), (-12, 12), (40, -40), (-40, 40)], r) });
+    let rule_x = "all ordered pairs of integer directions of {-1,0,1}^3 minus 0 (26^2 = 676, incl. parallel and exactly opposite) with both vectors scaled by 2^K and both by 2^-K, K = 40 (f32) / 400 (f64), and at the edge 2^+-33 (f32) / 2^+-260 (f64): every component and both squared lengths are ordinary finite floats, but the product |from|^2 |to|^2 is outside the range of the type (2^+-160 in f32, 2^+-1600 in f64).  The statement quantifies over every non-degenerate pair and the rotation does not depend on the lengths, so the oracle is unchanged: q must be unit and q*from = to |from|/|to| within the bounds of the float tier above; a violation here is reported under a class of its own (pair-whose-squared-lengths-product-overflows/underflows-not-mapped-onto-to); non-trivial: pair not parallel";
+    rep.section("rotation_from_to_3d float tier f64: both lengths 2^+-400 (the product of the squared lengths leaves the f64 range)", rule_x, true, false, |s| {
+        s.require_classes(&["|from|^2 |to|^2 overflows", "|from|^2 |to|^2 underflows"]);
+        float_from_to_scaled!(s, f64, vec![(400, 400), (-400, -400), (260, 260), (-260, -260)], 1) });
+    rep.section("rotation_from_to_3d float tier f32: both lengths 2^+-40 (the product of the squared lengths leaves the f32 range)", rule_x, true, false, |s| {
+        s.require_classes(&["|from|^2 |to|^2 overflows", "|from|^2 |to|^2 underflows"]);
+        float_from_to_scaled!(s, f32, vec![(40, 40), (-40, -40), (33, 33), (-33, -33)], 1) });
+}
+
+// ---- into_angle_axis: small angles, angles next to +-2pi, negated quaternions, +-identity ------------
+macro_rules! float_angle_axis_more { ($s:expr, $T:ty, $minexp:expr) => {{
+    let s: &Section = $s;
+    s.require_classes(&["small angle (1-w^2 < 1/64)", "angle next to +-2pi (w near -1, 1-w^2 < 1/64)", "negated quaternion -q", "+-identity or vector part below epsilon (axis arbitrary)"]);
+    let eps = <$T as Fl>::EPS; let tf = |v: f64| <$T as Fl>::f(v);
+    let name = <$T as Fl>::NAME;
+    let site = format!("Quaternion::into_angle_axis<{}>", name);
+    let smin = p2(-$minexp);
+    let dirs = int_dirs(if s.thorough() { 2 } else { 1 });
+    let two_pi = 2.0 * std::f64::consts::PI;
+    let mut cl: BTreeMap<&'static str, u64> = BTreeMap::new();
+    let mut cases: Vec<(Q4<$T>, &'static str, Value, u64)> = Vec::new();
+    for j in 1..=($minexp / 2 + 2) { for sg in [1.0, -1.0] { for far in [false, true] { for m in [1.0, 1.5] {
+        let theta = sg * if far { two_pi - m * p2(-j) } else { m * p2(-j) };
+        for d in &dirs {
+            let n = ((d[0] * d[0] + d[1] * d[1] + d[2] * d[2]) as f64).sqrt();
+            let (sh, ch) = ((theta / 2.0).sin(), (theta / 2.0).cos());
+            let qt: Q4<$T> = [tf(d[0] as f64 / n * sh), tf(d[1] as f64 / n * sh), tf(d[2] as f64 / n * sh), tf(ch)];
+            let s2 = 1.0 - qt[3].d() * qt[3].d();
+            if s2 >= 1.0 / 64.0 || s2 < smin { continue; }
+            cases.push((qt, if far { "angle next to +-2pi (w near -1, 1-w^2 < 1/64)" } else { "small angle (1-w^2 < 1/64)" }, json!({"theta": theta, "axis_direction": d}), j as u64 + wsum(d)));
+        }
+    } } } }
+    // negated quaternions over a coarse grid of ordinary angles: -q describes the same rotation as q
+    for ai in 0..(if s.thorough() { 64 } else { 16 }) { let theta = -3.1 + (ai as f64 + 0.5) * 6.2 / (if s.thorough() { 64.0 } else { 16.0 });
+        for d in &dirs {
+            let n = ((d[0] * d[0] + d[1] * d[1] + d[2] * d[2]) as f64).sqrt();
+            let (sh, ch) = ((theta / 2.0).sin(), (theta / 2.0).cos());
+            let qt: Q4<$T> = [-tf(d[0] as f64 / n * sh), -tf(d[1] as f64 / n * sh), -tf(d[2] as f64 / n * sh), -tf(ch)];
+            let s2 = 1.0 - qt[3].d() * qt[3].d();
+            if s2 < 1.0 / 64.0 { continue; }
+            cases.push((qt, "negated quaternion -q", json!({"theta of q": theta, "axis_direction": d, "input": "-q"}), 100 + ai as u64 + wsum(d)));
+        } }
+    for qt in [[0.0, 0.0, 0.0, 1.0], [0.0, 0.0, 0.0, -1.0], [eps / 4.0, 0.0, 0.0, 1.0], [0.0, -eps / 4.0, eps / 8.0, -1.0]] {
+        cases.push(([tf(qt[0]), tf(qt[1]), tf(qt[2]), tf(qt[3])], "+-identity or vector part below epsilon (axis arbitrary)", json!({"literal": qt}), 0));
+    }
+    s.meta("cases", json!(cases.len())); s.meta("smallest 1-w^2 evaluated", json!(smin));
+    for (qt, class, tag, weight) in &cases {
+        let qf: Q4<f64> = [qt[0].d(), qt[1].d(), qt[2].d(), qt[3].d()];
+        let s2 = 1.0 - qf[3] * qf[3];
+        *cl.entry(class).or_insert(0) += 1;
+        s.eval(true);
+        let inp = || json!({"q_xyzw": qf, "built_from": tag});
+        if let Some((ang, ax)) = s.call(&site, inp, || { let (a, v) = mkq(qt).into_angle_axis(); (a.d(), [v.x.d(), v.y.d(), v.z.d()]) }) {
+            let want = ref_q2m(&qf);
+            let got = rodrigues_f(&ax, ang.cos(), ang.sin());
+            // same derived bound as the tier above (cancellation in s = sqrt(1 - w^2)); for the +-identity family the rotation is the identity up to 2 eps and the axis is arbitrary but unit
+            let tol = if *class == "+-identity or vector part below epsilon (axis arbitrary)" { vx::fl::K * eps } else { vx::fl::K * eps * 2.0 / s2 };
+            let worst = (0..3).flat_map(|i| (0..3).map(move |j| (i, j))).map(|(i, j)| (got[i][j] - want[i][j]).abs()).fold(0.0, f64::max);
+            let alen = dotn(&ax, &ax).sqrt();
+            if !(worst <= tol) { viol(s, &site, "angle-axis-describe-a-different-rotation-within-error-bound", || json!({"input": inp(), "angle": ang, "axis": ax, "worst_matrix_entry_error": worst, "tolerance": tol}), *weight); }
+            if !((alen - 1.0).abs() <= tol) { viol(s, &site, "axis-not-unit-within-error-bound", || json!({"input": inp(), "angle": ang, "axis": ax, "axis_length": alen, "tolerance": tol}), *weight); }
+            if s.wants_sample() && *class == "small angle (1-w^2 < 1/64)" && s2 < 1e-3 && qf[0] != 0.0 && qf[1] != 0.0 { s.sample(json!({"input": inp(), "real_angle": ang, "real_axis": ax, "tolerance": tol})); }
+        }
+    }
+    for (k, n) in cl { s.class_n(k, n); }
+}} }
+
+fn sections_angle_axis_more(rep: &Report, th: bool) {
+    rep.section("into_angle_axis exact: small rotation angles and the quaternion -1",
+        "angles theta = 2 k arg(z) with z the rational circle point of parameter t in {1/50, 1/1000} (k in {1,-1}; for t = 1/50 also k in {2,-2}): sin(theta/2) down to 0.002, i.e. 1000 times closer to the identity than the exact section above, but still 2^40 times the code's epsilon test on s = sqrt(1 - w^2), so the real axis must be returned (a widened guard answers unit_x); axes: every 8th rational unit vector (thorough every 2nd); inputs: the reference quaternion by struct literal and the real rotation_3d(theta, 3*axis); plus the literal quaternion (0,0,0,-1) (angle 2 pi, axis arbitrary but unit).  Verdict as above: |axis|^2 = 1 and Rodrigues(axis, cos angle, sin angle) == the reference matrix of the quaternion; non-trivial: all", true, false, |s| {
+        s.require_classes(&["sin(theta/2) < 1/20", "sin(theta/2) < 1/400", "q = (0,0,0,-1)"]);
+        let axes: Vec<[X; 3]> = unit_axes().into_iter().enumerate().filter(|(i, _)| i % (if th { 2 } else { 8 }) == 0).map(|(_, a)| a).collect();
+        let site = "Quaternion::into_angle_axis";
+        let verdict = |qd: Q4<X>, how: String, cls: &'static str, w: u64| {
+            s.eval(true); s.class(cls);
+            let inp = || json!({"q_xyzw": jxs(&qd), "built_by": how});
+            let Some((ang, axis)) = s.call(site, inp, || { let (a, v) = mkq(&qd).into_angle_axis(); (a, dv3(&v)) }) else { return };
+            let Some((sa, ca)) = s.call(site, inp, || ang.sin_cos_q()) else { return };
+            guarded(s, || {
+                if dotn(&axis, &axis) != ONE { viol(s, site, "axis-not-unit", || json!({"input": inp(), "angle": jx(ang), "axis": jxs(&axis)}), w); }
+                let got = rodrigues(&axis, X::R(ca), X::R(sa));
+                if got != ref_q2m(&qd) { viol(s, site, "angle-axis-describe-a-different-rotation", || json!({"input": inp(), "angle": jx(ang), "angle_radians~": ang.shadow(), "axis": jxs(&axis), "rotation(angle, axis)": jmat(&got), "rotation of q": jmat(&ref_q2m(&qd))}), w); }
+                if s.wants_sample() && cls == "sin(theta/2) < 1/400" && axis[0] != Z && axis[1] != Z { s.sample(json!({"input": inp(), "real_angle": jx(ang), "real_angle_radians~": ang.shadow(), "real_axis": jxs(&axis)})); }
+            });
+        };
+        for (tn, td, ks) in [(1i128, 50i128, vec![1i128, -1, 2, -2]), (1, 1000, vec![1, -1])] {
+            let b = angle_base_t(tn, td);
+            for k2 in ks {
+                let (theta, half) = (X::tok(b, 2 * k2), X::tok(b, k2));
+                let (sh, ch) = half.sin_cos_q();
+                clear_inverse(); register_inverse(if sh.n >= 0 { half } else { X::tok(b, -k2) });
+                let cls = if td == 1000 { "sin(theta/2) < 1/400" } else { "sin(theta/2) < 1/20" };
+                for ax in &axes {
+                    let qref: Q4<X> = [ax[0] * X::R(sh), ax[1] * X::R(sh), ax[2] * X::R(sh), X::R(ch)];
+                    verdict(qref, format!("struct literal (axis sin(theta/2), cos(theta/2)), t = {}/{}, k = {}", tn, td, k2), cls, k2.unsigned_abs() as u64 + wx(ax));
+                    let given = scl3(ax, qi(3));
+                    if let Some(qd) = s.call("Quaternion::rotation_3d", || json!({"theta": jx(theta), "axis": jxs(&given)}), || dq(Quaternion::rotation_3d(theta, v3(&given)))) {
+                        verdict(qd, format!("Quaternion::rotation_3d(theta, 3*axis), t = {}/{}, k = {}", tn, td, k2), cls, k2.unsigned_abs() as u64 + wx(ax) + 1);
+                    }
+                }
+            }
+        }
+        clear_inverse(); register_inverse(X::pi());
+        verdict([Z, Z, Z, -ONE], "literal (0,0,0,-1)".to_string(), "q = (0,0,0,-1)", 0);
+        clear_inverse();
+        s.meta("axes", json!(axes.len()));
+    });
+    let rule = "quaternions q = (axis/|axis| sin(theta/2), cos(theta/2)) computed in f64 and rounded to the type, axes the integer directions of {-1,0,1}^3 (thorough {-2..2}^3): (a) theta = +-m 2^-j and +-(2 pi - m 2^-j), m in {1, 1.5}, kept when 2^-E <= 1 - w^2 < 1/64 with E = 24 (f64) / 8 (f32) - the range the tier above skips; the bound 256 eps 2/(1-w^2) derived there is still far below the effect of a wrong axis (2 sin(theta/2)) in this range, so a widened `s < epsilon` guard is visible; (b) the negation -q of ordinary rotation quaternions (16, thorough 64 angles in (-3.1, 3.1)): -q is the same rotation, so angle and axis must describe the rotation of q (w < 0 inputs that do not come from a large angle); (c) (0,0,0,1), (0,0,0,-1) and quaternions whose vector part is below epsilon: the axis is arbitrary but must be unit, the rotation the identity within 256 eps; non-trivial: all";
+    rep.section("into_angle_axis float tier f64: small angles, angles next to 2 pi, negated quaternions, +-identity", rule, true, false, |s| float_angle_axis_more!(s, f64, 24));
+    rep.section("into_angle_axis float tier f32: small angles, angles next to 2 pi, negated quaternions, +-identity", rule, true, false, |s| float_angle_axis_more!(s, f32, 8));
 }
